@@ -547,7 +547,7 @@ func init() {
 			"each run is compared with a CLI model that maps the flags to the documented library calls: exit status, stdout bytes, -o file bytes (stdout empty), stdin vs file; the patch-mode leg feeds the library's diff to `jd -p` and requires the output to equal the library rendering and to reproduce b; " +
 			"non-trivial = every run; distinct = distinct (shape, binary, inputs)",
 		Floors: map[string]int{"cli_runs": 5000, "status_0": 500, "status_1": 500, "status_2": 200, "with_-o": 1000, "-o_onto_existing_longer_file": 500, "stdin_vs_file_pairs": 100, "setkeys_spellings": 100, "in_place_-o": 10, "second_input_from_stdin": 1000, "colour_output": 300, "patch_mode_runs": 1000,
-			"pipeline_reproduces_b:jd": 300, "pipeline_reproduces_b:patch": 50, "pipeline_reproduces_b:merge": 50, "pipeline_yaml": 200, "translate_runs": 120, "translate_spelling_runs": 150, "void_and_empty_pairs": 300, "unreadable_input_runs": 30, "git_diff_driver_runs": 15, "error_cases": 200},
+			"pipeline_reproduces_b:jd": 300, "pipeline_reproduces_b:patch": 50, "pipeline_reproduces_b:merge": 50, "pipeline_yaml": 200, "translate_runs": 120, "translate_spelling_runs": 150, "void_and_empty_pairs": 300, "unreadable_input_runs": 30, "process_environment_runs": 50, "git_diff_driver_runs": 15, "error_cases": 200},
 		Assumptions: []string{
 			"the CLI model (props/c14.go modelDiff / modelPatch) encodes the documented mapping: flags -> options, -f -> renderer / reader, status 0 no difference / 1 difference / 2 error",
 			"-precision together with -set / -mset is a documented refusal (status 2)",
@@ -780,6 +780,73 @@ func init() {
 				c.Violation(fmt.Sprintf("an unreadable input must end with status 2, a message and no output; got status %d", res.Status), extra)
 			}
 			c.Feature("error_cases")
+		},
+	})
+	p.Strata = append(p.Strata, mon.Stratum{
+		Name:       "process-environment",
+		CLI:        true,
+		N:          n(3 * 3 * 6),
+		Exhaustive: always,
+		Run: func(c *mon.Ctx, i int) {
+			// what the binaries print must depend on the flags and the CONTENT of the inputs only: not on what
+			// standard output is connected to, not on whether two arguments name one file, not on how a file
+			// argument is spelled (/dev/stdin), and surplus arguments are a usage error
+			bin := Binaries[i%3]
+			f := []string{"", "patch", "merge"}[(i/3)%3]
+			kind := (i / 9) % 6
+			aT, bT := `{"a":[1,2],"s":"x"}`, `{"a":[1,3],"s":"<y>"}`
+			var fl []string
+			if f != "" {
+				fl = []string{"-f", f}
+			}
+			c.Input("binary", bin.Name)
+			c.Input("format", f)
+			ref0 := RunCLI(c, bin, append(append([]string{}, fl...), "a.json", "b.json"), "", map[string]string{"a.json": aT, "b.json": bT})
+			if ref0.Status != 1 {
+				c.Violation(fmt.Sprintf("reference run exited %d", ref0.Status), map[string]any{"stderr": ref0.Stderr})
+				return
+			}
+			c.Feature("process_environment_runs")
+			c.Nontrivial(joinKey("env", bin.Name, f, fmt.Sprint(kind)))
+			switch kind {
+			case 0: // -o FILE while stdout is a character device
+				os.Remove(filepath.Join(c.WorkDir, "out.txt"))
+				r := RunCLIDevNull(c, bin, append(append([]string{"-o", "out.txt"}, fl...), "a.json", "b.json"), "", nil)
+				got, _ := readOut(c, "out.txt")
+				if r.Status != 1 || got != ref0.Stdout {
+					c.Violation("-o FILE with standard output on /dev/null writes other bytes than the same run prints on a pipe", map[string]any{"file": got, "pipe": ref0.Stdout, "status": r.Status})
+				}
+			case 1: // both arguments name one file
+				same := RunCLI(c, bin, append(append([]string{}, fl...), "a.json", "./a.json"), "", nil)
+				copy2 := RunCLI(c, bin, append(append([]string{}, fl...), "a.json", "a2.json"), "", map[string]string{"a2.json": aT})
+				if same.Status != copy2.Status || same.Stdout != copy2.Stdout {
+					c.Violation("comparing a file with itself differs from comparing it with a byte-identical copy", map[string]any{"same_file": fmt.Sprint(same.Status, same.Stdout), "copy": fmt.Sprint(copy2.Status, copy2.Stdout)})
+				}
+			case 2: // an unparsable file against itself is still an error
+				bad := RunCLI(c, bin, append(append([]string{}, fl...), "bad.json", "bad.json"), "", map[string]string{"bad.json": `{"a":`})
+				if bad.Status != 2 {
+					c.Violation(fmt.Sprintf("an unparsable file compared with itself exits %d, not 2", bad.Status), map[string]any{"stdout": bad.Stdout, "stderr": bad.Stderr})
+				}
+			case 3: // -o with both arguments naming one file still writes the file
+				os.Remove(filepath.Join(c.WorkDir, "out.txt"))
+				r := RunCLI(c, bin, append(append([]string{"-o", "out.txt"}, fl...), "a.json", "a.json"), "", nil)
+				want := RunCLI(c, bin, append(append([]string{}, fl...), "a.json", "a2.json"), "", map[string]string{"a2.json": aT})
+				got, ok := readOut(c, "out.txt")
+				if r.Status != 0 || !ok || got != want.Stdout {
+					c.Violation("-o FILE is not written (or differs) when both inputs are the same file", map[string]any{"status": r.Status, "file_exists": ok, "file": got, "want": want.Stdout})
+				}
+			case 4: // a surplus positional argument (e.g. a flag after the file names) is a usage error
+				r := RunCLI(c, bin, append(append([]string{}, fl...), "a.json", "b.json", "-set"), "", nil)
+				r2 := RunCLI(c, bin, append(append([]string{"-p"}, fl...), "p.diff", "a.json", "extra.json"), "", map[string]string{"p.diff": "@ [\"s\"]\n- \"x\"\n+ \"z\"\n", "extra.json": "1"})
+				if r.Status != 2 || r2.Status != 2 {
+					c.Violation(fmt.Sprintf("surplus arguments are accepted (status %d / %d): an option written after the file names is silently ignored", r.Status, r2.Status), map[string]any{"stdout": r.Stdout, "stdout_p": r2.Stdout})
+				}
+			default: // /dev/stdin as a FILE argument reads what the one-argument form reads
+				r := RunCLI(c, bin, append(append([]string{}, fl...), "a.json", "/dev/stdin"), bT, nil)
+				if r.Status != ref0.Status || r.Stdout != ref0.Stdout {
+					c.Violation("naming /dev/stdin as FILE2 gives another result than naming the file", map[string]any{"dev_stdin": fmt.Sprint(r.Status, r.Stdout, r.Stderr), "file": fmt.Sprint(ref0.Status, ref0.Stdout)})
+				}
+			}
 		},
 	})
 	p.Strata = append(p.Strata, mon.Stratum{
